@@ -412,6 +412,7 @@ class GenOpts:
         self.dup = kw.get("dup", 0.04)  # probability of duplicating a non-repeatable keyword
         self.p_key = kw.get("p_key", 0.25)  # probability of drawing each schema keyword
         self.p_child = kw.get("p_child", 0.5)
+        self.decay = kw.get("decay", 0.6)  # per-level decay of p_child (1.0 = as bushy at depth 5 as at depth 1)
         self.valid = kw.get("valid", False)  # supply required keywords, no duplicates
         self.gated = kw.get("gated", set())
         self.skip_keys = kw.get("skip_keys", set())
@@ -431,7 +432,7 @@ def gen_node(r, type_, opts, depth=1, budget=None):
         is_req = opts.valid and key in vocab.required(type_)
         if key in slots and (type_, key + ":block") not in UNWRITABLE:
             child, mode = slots[key]
-            if depth < opts.max_depth and budget[0] > 0 and r.random() < opts.p_child * (0.6 ** (depth - 1)):
+            if depth < opts.max_depth and budget[0] > 0 and r.random() < opts.p_child * (opts.decay ** (depth - 1)):
                 n = 1 if mode == "single" else r.choice([1, 1, 2, 3])
                 if opts.valid:
                     mx = next((a.info["n"][1] for a in p.alts if a.kind == "blocklist" and a.info.get("n")), None)
